@@ -52,6 +52,17 @@ namespace occa {
 
     primitive binaryOpNode::evaluate() const {
       primitive pLeft  = leftValue->evaluate();
+      // && and || do not evaluate their right operand
+      //   once the left one decides the result
+      if (op.opType & operatorType::and_) {
+        if (!(bool) pLeft) {
+          return primitive(false);
+        }
+      } else if (op.opType & operatorType::or_) {
+        if ((bool) pLeft) {
+          return primitive(true);
+        }
+      }
       primitive pRight = rightValue->evaluate();
       return ((binaryOperator_t&) op)(pLeft, pRight);
     }
